@@ -158,6 +158,8 @@ def major_instances():
         Instance({k: pool[k] for k in ("1", "2", "4")}, {"1": 4}, {A1: 15, MM(100, "_"): 55, A2: 40, MM(200, "_"): 30}, single={100: 17.5, 200: 17.5}),
         # one copy of one configuration, nothing observed
         Instance({"1": pool["1"]}, {"1": 1}, {}),
+        # the catalogue knows core variants nobody observed (no read) and no candidate carries: they play no part
+        Instance({k: pool[k] for k in ("1", "2")}, {"1": 2}, {A1: 9, MM(100, "_"): 11, A3: 0, MM(300, "_"): 20}, present=[A3, AD]),
         # an allele for every subset of three variants, three copies, a wide gap: 41 combinations within (1 + 7) x best, five of them tied for best
         Instance({"1": ("1", []), "2": ("1", [A1]), "31": ("1", [A2]), "10": ("1", [A3]), "4": ("1", [A1, A2]), "32": ("1", [A1, A3]), "33": ("1", [A2, A3]),
                   "34": ("1", [A1, A2, A3])}, {"1": 3}, {A1: 12, A2: 9, A3: 11, MM(100, "_"): 19, MM(200, "_"): 21, MM(300, "_"): 20}, gaps=(0.0, 7.0)),
@@ -304,6 +306,8 @@ def run(repo, res):
 
 
 MUTANTS = [
+    dict(name="R9 novel candidates without support test (formerly C15.R4)", module="major", expect=["C02.R9", "C02.R10"],
+         old="        if gene.is_functional(m) and coverage[Mutation(*m)] > 0", new="        if gene.is_functional(m)"),
     dict(name="R5 read-back keyed by raw name", module="major", expect=["C02.R9", "C02.R10"],
          old="        **{model.varName(v): a for a, v in VA.items()},", new='        **{f"A_{a[0]}_{a[1]}": a for a, v in VA.items()},'),
     dict(name="R1 CSAT side dropped", module="major", expect=["C02.R9", "C02.R10"],
